@@ -2,6 +2,7 @@ package props
 
 import (
 	"fmt"
+	"sort"
 	"strconv"
 	"strings"
 	"sync"
@@ -103,6 +104,88 @@ func c02Requests(hA, hB string) (qs []c02Req) {
 		}
 	}
 	return qs
+}
+
+// c02Size: six lists with ids in no particular order, sixty rules for one host
+// name that differ in their client tag, sixty hosts lines; requests with one,
+// ten and twenty sorted client tags.
+func c02Size(c *Ctx) (evals int64) {
+	ids := []int{50, 10, 40, 20, 30, 15}
+	var ls []filterlist.RuleList
+	tagRule := map[string]string{}
+	var hostNames []string
+	for k, id := range ids {
+		var sb strings.Builder
+		fmt.Fprintf(&sb, "! list %d\n", id)
+		for j := 0; j < 10; j++ {
+			tag := fmt.Sprintf("t%d%d", k, j)
+			rule := "||net.size.test^$ctag=" + tag
+			tagRule[tag] = rule
+			sb.WriteString(rule + "\n")
+			hn := fmt.Sprintf("hs%d%d.size.test", k, j)
+			hostNames = append(hostNames, hn)
+			sb.WriteString("0.0.0.0 " + hn + "\n")
+		}
+		if k == len(ids)-1 {
+			sb.WriteString("@@||net.size.test^$ctag=t00\n")
+		}
+		ls = append(ls, &filterlist.StringRuleList{ID: id, RulesText: sb.String()})
+	}
+	st, err := filterlist.NewRuleStorage(ls)
+	if err != nil {
+		panic(HarnessError(err.Error()))
+	}
+	e := urlfilter.NewDNSEngine(st)
+	tagSets := [][]string{{"t00"}, {"t59"}, {"t30", "t31"}}
+	var ten, twenty []string
+	for j := 0; j < 10; j++ {
+		ten = append(ten, fmt.Sprintf("t2%d", j))
+		twenty = append(twenty, fmt.Sprintf("t0%d", j), fmt.Sprintf("t4%d", j))
+	}
+	sort.Strings(twenty)
+	tagSets = append(tagSets, ten, twenty, append([]string{"a0", "a1", "a2", "a3", "a4", "a5", "a6", "a7"}, "t15", "t16"))
+	for _, tags := range tagSets {
+		evals++
+		var want []string
+		allow := false
+		for _, t := range tags {
+			if r, ok := tagRule[t]; ok {
+				want = append(want, r)
+			}
+			if t == "t00" {
+				want = append(want, "@@||net.size.test^$ctag=t00")
+				allow = true
+			}
+		}
+		res, matched := e.MatchRequest(&urlfilter.DNSRequest{Hostname: "net.size.test", DNSType: 1, SortedClientTags: tags})
+		wantClass := 1
+		if allow {
+			wantClass = 2
+		}
+		if len(want) == 0 {
+			wantClass = 0
+		}
+		if got := sortedSet(netTexts(res.NetworkRules)); !eqStrings(got, sortedSet(want)) || c06ClassOfRule(res.NetworkRule) != wantClass || matched != (len(want) > 0) {
+			c.Run.Violate(ev.Violation{Pred: "dns-answer-equals-reference", Sig: map[string]any{"size_layer": "tags", "tags": len(tags)},
+				What:   fmt.Sprintf("six lists (ids %v), 60 rules for net.size.test by client tag, request with tags %v: matched=%v class=%s rules=%v; expected class=%s rules=%v", ids, tags, matched, c06ClassNames[c06ClassOfRule(res.NetworkRule)], got, c06ClassNames[wantClass], sortedSet(want)),
+				Replay: map[string]any{"history": []int{}}})
+			return evals
+		}
+	}
+	for i, hn := range hostNames {
+		if i%7 != 0 && i != len(hostNames)-1 {
+			continue
+		}
+		evals++
+		res, matched := e.MatchRequest(&urlfilter.DNSRequest{Hostname: hn, DNSType: 1})
+		if !matched || len(res.HostRulesV4) != 1 || res.HostRulesV4[0].RuleText != "0.0.0.0 "+hn {
+			c.Run.Violate(ev.Violation{Pred: "dns-answer-equals-reference", Sig: map[string]any{"size_layer": "hosts", "name": hn},
+				What:   fmt.Sprintf("six lists (ids %v) with 60 hosts lines: query %q: matched=%v v4=%d", ids, hn, matched, len(res.HostRulesV4)),
+				Replay: map[string]any{"history": []int{}}})
+			return evals
+		}
+	}
+	return evals
 }
 
 // c02CrossValidate compares NetworkRule.Match, which the reference resolution
@@ -306,6 +389,7 @@ func init() {
 			return
 		}
 		c.Run.Set("alphabet_matcher_cross_validations", c02CrossValidate(c, lines, m.reqs))
+		c.Run.Set("size_layer_evaluations", c02Size(c))
 		model := statespace.Model{NOps: len(lines), Run: m.run}
 		depth, guard := 4, 2
 		if c.Thorough() {
